@@ -16,16 +16,21 @@ package main
 import (
 	"bytes"
 	"context"
+	"encoding"
 	stdjson "encoding/json"
 	"fmt"
+	"math/big"
 	"math/rand"
+	"net"
 	"os"
 	"os/exec"
 	"reflect"
+	"sort"
 	"strconv"
 	"strings"
 	"time"
 	"unicode/utf8"
+	"unsafe"
 
 	gojson "github.com/goccy/go-json"
 )
@@ -80,6 +85,12 @@ var c02Named = []reflect.Type{
 	reflect.TypeOf(C02UJ{}), reflect.TypeOf(C02UT{}), reflect.TypeOf(C02UJVal(0)), reflect.TypeOf(TgNamedStr("")), reflect.TypeOf(TgNamedInt(0)),
 	reflect.TypeOf(TgNamedSlice(nil)), reflect.TypeOf(TgNamedMap(nil)), reflect.TypeOf(stdjson.Number("")), reflect.TypeOf(stdjson.RawMessage(nil)),
 	reflect.TypeOf(TgRec{}), reflect.TypeOf(TgMutA{}), reflect.TypeOf(TgEmbed{}),
+	// implementer shapes (audit): methods on a slice, on a map (value receiver), both methods at once, a value-receiver
+	// UnmarshalText, byte-kind elements with methods, a method promoted from an embedded struct
+	reflect.TypeOf(C02USlice(nil)), reflect.TypeOf(C02UMap(nil)), reflect.TypeOf(C02Both{}), reflect.TypeOf(C02VT(0)),
+	reflect.TypeOf([]C02NB(nil)), reflect.TypeOf([]C02TB(nil)), reflect.TypeOf([2]C02NB{}), reflect.TypeOf(C02EmbUJ{}),
+	// implementers of the standard library: both methods (time.Time, big.Int), UnmarshalText on a []byte kind (net.IP)
+	reflect.TypeOf(time.Time{}), reflect.TypeOf(big.Int{}), reflect.TypeOf(net.IP(nil)),
 }
 
 func c02Type(r *rand.Rand, depth int) reflect.Type {
@@ -158,7 +169,10 @@ func c02Struct(r *rand.Rand, depth int) reflect.Type {
 		case 1:
 			jname = fmt.Sprintf("n%d", i)
 		case 2:
-			jname = []string{"a&b", "<x>", "é", "with space", "UPPER", "id", "name", "Ünï", "kK"}[r.Intn(9)]
+			// (audit) also: '/' (the one simple escape a name can need), a letter beyond U+FFFF (an escaped key spells it as a
+			// surrogate pair), a name without letter case, names at the edge of the key matcher's length limit (64 bytes)
+			jname = []string{"a&b", "<x>", "é", "with space", "UPPER", "id", "name", "Ünï", "kK", "a/b", "\U0001d49cz", "日本", "/",
+				"L" + strings.Repeat("o", 61) + "ng", "L" + strings.Repeat("o", 62) + "ng", "x" + strings.Repeat("-", 60) + "Y"}[r.Intn(16)]
 		}
 		if jname != "" || r.Intn(2) == 0 {
 			tag = append(tag, jname)
@@ -205,6 +219,9 @@ func c02Wrong(r *rand.Rand) string {
 func c02KeyFor(r *rand.Rand, kt reflect.Type) string {
 	switch kt.Kind() {
 	case reflect.String:
+		if r.Intn(3) == 0 {
+			return c02RandStringLit(r)
+		}
 		return c02Strings[r.Intn(len(c02Strings))]
 	case reflect.Int, reflect.Int8, reflect.Int16, reflect.Int32, reflect.Int64, reflect.Uint, reflect.Uint8, reflect.Uint16, reflect.Uint32, reflect.Uint64, reflect.Uintptr:
 		if r.Intn(8) == 0 {
@@ -291,6 +308,14 @@ func c02KeySpelling(r *rand.Rand, name string) string {
 		}
 	case 4:
 		return strconvQuote(name + "x")
+	case 5:
+		if utf8.ValidString(name) {
+			return c02EscapeSome(r, name, false) // escapes at any position, both cases of the hex digits, pairs for characters beyond U+FFFF
+		}
+	case 6:
+		if utf8.ValidString(name) {
+			return c02EscapeSome(r, name, true) // every character escaped
+		}
 	}
 	return strconvQuote(name)
 }
@@ -312,10 +337,34 @@ func c02Doc(r *rand.Rand, t reflect.Type, depth int, quoted bool) string {
 	}
 	switch t {
 	case reflect.TypeOf(stdjson.Number("")):
+		if r.Intn(3) == 0 {
+			if r.Intn(4) == 0 {
+				return `"` + c02RandNumber(r) + `"`
+			}
+			return c02RandNumber(r)
+		}
 		return []string{"0", "-12", "1.5e3", "123456789012345678901234567890", `"12"`, `"abc"`, `""`, `"1e2"`, `true`, `" 1"`}[r.Intn(10)]
+	case reflect.TypeOf(time.Time{}):
+		return []string{`"2006-01-02T15:04:05Z"`, `"2020-02-29T23:59:59.123456789+01:00"`, `"0001-01-01T00:00:00Z"`, `"2006-01-02"`, `"2006-01-02T15:04:05"`, `"bad"`, `""`, `1`, `{}`, `"9999-12-31T23:59:59.999999999-23:59"`,
+			`"2006-01-02T15:04:05\u005a"`, `"2006-01-02t15:04:05z"`, `"2015-06-30T23:59:60Z"`}[r.Intn(13)]
+	case reflect.TypeOf(big.Int{}):
+		return []string{`0`, `-1`, `123456789012345678901234567890`, `"12"`, `1.5`, `1e2`, `"x"`, `true`, `[]`, `-0`}[r.Intn(10)]
+	case reflect.TypeOf(net.IP(nil)):
+		return []string{`"1.2.3.4"`, `"::1"`, `"2001:db8::68"`, `"1.2.3"`, `""`, `"AQIDBA=="`, `[1,2,3,4]`, `1`, `"\u0031.2.3.4"`, `"256.1.1.1"`}[r.Intn(10)]
 	case reflect.TypeOf(stdjson.RawMessage(nil)), reflect.TypeOf(C02UJ{}), reflect.TypeOf(C02UJVal(0)):
 		return genValue(r, 2)
 	case reflect.TypeOf(C02UT{}):
+		if r.Intn(3) == 0 {
+			return c02RandStringLit(r)
+		}
+		return c02Strings[r.Intn(len(c02Strings))]
+	}
+	if pt := reflect.PtrTo(t); pt.Implements(c02UnmarshalerIface) {
+		return genValue(r, 2)
+	} else if pt.Implements(c02TextUnmarshalerIface) {
+		if r.Intn(3) == 0 {
+			return c02RandStringLit(r)
+		}
 		return c02Strings[r.Intn(len(c02Strings))]
 	}
 	switch t.Kind() {
@@ -325,11 +374,19 @@ func c02Doc(r *rand.Rand, t reflect.Type, depth int, quoted bool) string {
 		s := c02Ints[r.Intn(len(c02Ints))]
 		if r.Intn(3) == 0 {
 			s = strconv.FormatInt(r.Int63()>>uint(r.Intn(64))*int64(1-2*r.Intn(2)), 10)
+		} else if r.Intn(8) == 0 {
+			s = c02RandNumber(r)
 		}
 		return s
 	case reflect.Float32, reflect.Float64:
+		if r.Intn(3) == 0 {
+			return c02RandNumber(r)
+		}
 		return c02Floats[r.Intn(len(c02Floats))]
 	case reflect.String:
+		if r.Intn(3) == 0 {
+			return c02RandStringLit(r)
+		}
 		return c02Strings[r.Intn(len(c02Strings))]
 	case reflect.Interface:
 		return genValue(r, 2)
@@ -337,9 +394,22 @@ func c02Doc(r *rand.Rand, t reflect.Type, depth int, quoted bool) string {
 		return c02Doc(r, t.Elem(), depth+1, quoted)
 	case reflect.Slice, reflect.Array:
 		if t.Elem().Kind() == reflect.Uint8 && t.Kind() == reflect.Slice && r.Intn(3) > 0 {
+			if r.Intn(2) == 0 {
+				// (audit) base64 texts of every length and padding (right, missing, wrong, with line ends), sometimes spelled with escapes ('/' is in the alphabet)
+				if txt := string(c04B64Texts(r, 1)[0]); utf8.ValidString(txt) {
+					if r.Intn(3) == 0 {
+						return c02EscapeSome(r, txt, false)
+					}
+					return strconvQuote(txt)
+				}
+			}
 			return c02Strings[r.Intn(len(c02Strings))]
 		}
 		n := r.Intn(5)
+		if r.Intn(16) == 0 && depth < 3 {
+			c02Gen["arrays_of_5_to_64_elements"]++
+			n = 5 + r.Intn(60) // (audit) more elements than the working array of the slice decoder starts with, several doublings
+		}
 		if t.Kind() == reflect.Array && r.Intn(2) == 0 {
 			n = t.Len()
 		}
@@ -350,6 +420,10 @@ func c02Doc(r *rand.Rand, t reflect.Type, depth int, quoted bool) string {
 		return "[" + c02WS(r) + strings.Join(parts, ",") + "]"
 	case reflect.Map:
 		n := r.Intn(4)
+		if r.Intn(16) == 0 && depth < 3 {
+			c02Gen["objects_of_4_to_33_members_for_a_map"]++
+			n = 4 + r.Intn(30) // (audit) enough members for the map to grow
+		}
 		var parts []string
 		for i := 0; i < n; i++ {
 			k := c02KeyFor(r, t.Key())
@@ -361,6 +435,9 @@ func c02Doc(r *rand.Rand, t reflect.Type, depth int, quoted bool) string {
 		}
 		return "{" + c02WS(r) + strings.Join(parts, c02WS(r)+","+c02WS(r)) + c02WS(r) + "}"
 	case reflect.Struct:
+		if c02EmbedCycle(t, map[reflect.Type]bool{}) {
+			return genValue(r, 2) // a type that embeds itself (met as the dynamic type of an interface): its names cannot be listed by recursion
+		}
 		names := c02FieldNames(t)
 		var parts []string
 		for _, name := range names {
@@ -371,6 +448,10 @@ func c02Doc(r *rand.Rand, t reflect.Type, depth int, quoted bool) string {
 			val := "null"
 			if ft != nil {
 				val = c02Doc(r, ft, depth+1, false)
+				if c02FieldHasStringOption(t, name) && r.Intn(4) != 0 {
+					// the ,string option: the value arrives inside a JSON string
+					val = c02QuoteValue(r, val)
+				}
 			} else {
 				val = genValue(r, 1)
 			}
@@ -388,6 +469,11 @@ func c02Doc(r *rand.Rand, t reflect.Type, depth int, quoted bool) string {
 			val := genValue(r, 1)
 			if ft := c02FieldTypeByName(t, name); ft != nil {
 				val = c02Doc(r, ft, depth+1, false)
+				if r.Intn(2) == 0 {
+					// (audit) the second occurrence in another spelling of the same name (letter case, escapes)
+					k = c02KeySpelling(r, name)
+					c02Gen["repeated_key_in_another_spelling"]++
+				}
 			}
 			parts = append(parts, k+":"+val)
 		}
@@ -439,8 +525,36 @@ func c02Entries() []c02Entry {
 			es = append(es, c02Entry{fmt.Sprintf("Decoder(UseNumber=%v,DisallowUnknownFields=%v)", un, dis), g, s})
 		}
 	}
+	// (audit) the remaining entry points, appended so that the indices used by the sweep stay what they were: the NoEscape twin of
+	// Unmarshal, the two other Decode methods, and a Decoder that has already decoded a value (the state a call leaves behind)
+	es = append(es,
+		c02Entry{"UnmarshalNoEscape", func(doc []byte, v interface{}) error { return gojson.UnmarshalNoEscape(doc, v) }, stdjson.Unmarshal},
+		c02Entry{"Decoder.DecodeContext", func(doc []byte, v interface{}) error {
+			return gojson.NewDecoder(bytes.NewReader(doc)).DecodeContext(context.Background(), v)
+		}, func(doc []byte, v interface{}) error { return stdjson.NewDecoder(bytes.NewReader(doc)).Decode(v) }},
+		c02Entry{"Decoder.DecodeWithOption", func(doc []byte, v interface{}) error {
+			return gojson.NewDecoder(bytes.NewReader(doc)).DecodeWithOption(v)
+		}, func(doc []byte, v interface{}) error { return stdjson.NewDecoder(bytes.NewReader(doc)).Decode(v) }},
+		c02Entry{"Decoder, second value", func(doc []byte, v interface{}) error {
+			d := gojson.NewDecoder(bytes.NewReader(append([]byte(c02FirstValue), doc...)))
+			var first interface{}
+			if err := d.Decode(&first); err != nil {
+				return fmt.Errorf("first value: %v", err)
+			}
+			return d.Decode(v)
+		}, func(doc []byte, v interface{}) error {
+			d := stdjson.NewDecoder(bytes.NewReader(append([]byte(c02FirstValue), doc...)))
+			var first interface{}
+			if err := d.Decode(&first); err != nil {
+				return fmt.Errorf("first value: %v", err)
+			}
+			return d.Decode(v)
+		}})
 	return es
 }
+
+// what a Decoder of the entry "Decoder, second value" reads before the document: keys and strings with escapes, numbers, nesting
+const c02FirstValue = `{"k\u00e9y":["a\n\ud83d\ude00",-1.5e+3,{"x":null}],"F0":true} ` + "\n"
 
 // a decoder that writes the wrong shape into the destination can make the comparison itself fault: the cases run
 // in a child process; a crash is reported with the case that was running and the run goes on behind it
@@ -493,6 +607,9 @@ func runC02Child(o *Out) {
 		o.checkpoint()
 		c02ModelCases(o)
 		o.checkpoint()
+		c02AuditStrata(o)
+		c02FlushGen(o)
+		o.checkpoint()
 	}
 	r := o.rng
 	n := 3000
@@ -509,8 +626,26 @@ func runC02Child(o *Out) {
 			t = c02Struct(r, 2)
 		}
 		for k := 0; k < 3; k++ {
-			doc := []byte(c02Doc(r, t, 0, false))
 			seed := r.Int63()
+			along := k > 0 && r.Intn(2) == 0
+			var ds string
+			if along {
+				// (audit) a document written along the initial value: the keys the maps already hold, arrays one shorter than,
+				// as long as and one longer than the slices, objects for the pointers and interfaces that are set
+				iv := reflect.New(t)
+				tgValue(rand.New(rand.NewSource(seed)), iv.Elem(), 0, 30, false)
+				ds = c02DocAlong(r, t, iv.Elem(), 0, o)
+				o.count("documents_along_the_initial_value", 1)
+			} else {
+				ds = c02Doc(r, t, 0, false)
+			}
+			if r.Intn(4) == 0 {
+				// (audit) white space around the top-level value, whatever its kind
+				ws := []string{" ", "\n", "\t", "\r", "\r\n", " \t\n\r "}
+				ds = ws[r.Intn(len(ws))] + ds + ws[r.Intn(len(ws))]
+				o.count("documents_with_outer_white_space", 1)
+			}
+			doc := []byte(ds)
 			e := entries[r.Intn(len(entries))]
 			if k == 0 {
 				e = entries[0]
@@ -535,10 +670,12 @@ func runC02Child(o *Out) {
 		if i >= skip {
 			os.WriteFile(o.dir+"/progress", []byte(strconv.Itoa(i)), 0o644)
 			if i%100 == 99 {
+				c02FlushGen(o)
 				o.checkpoint()
 			}
 		}
 	}
+	c02FlushGen(o)
 }
 
 func c02One(o *Out, t reflect.Type, doc []byte, mk func() reflect.Value, e c02Entry, populated bool) {
@@ -548,6 +685,7 @@ func c02One(o *Out, t reflect.Type, doc []byte, mk func() reflect.Value, e c02En
 	gv := mk()
 	gerr := c04SafeErr(func() error { return e.goj(doc, gv.Interface()) })
 	o.count("decodes", 1)
+	c02Hist(o, "entry_point", e.name)
 	if serr != nil {
 		o.hist("encoding_json", "error")
 	} else {
@@ -577,6 +715,14 @@ func c02One(o *Out, t reflect.Type, doc []byte, mk func() reflect.Value, e c02En
 	initial := "zero"
 	if populated {
 		initial = clipN(fmt.Sprintf("%#v", mk().Elem().Interface()), 400)
+	}
+	if c02Stratum != "" {
+		what += " [" + c02Stratum + "]"
+		if i := strings.Index(c02Stratum, "candidate finding "); i >= 0 && os.Getenv("AUDIT_OPEN") == "" {
+			// an input the stratum produced under the predicate of a recorded finding
+			o.known(strings.Fields(c02Stratum[i+len("candidate finding "):])[0], clipN(string(doc), 120)+" into "+clipN(t.String(), 160))
+			return
+		}
 	}
 	o.violation("C02", what, map[string]string{
 		"entry": e.name, "type": clipN(t.String(), 700), "doc": clipN(string(doc), 700), "initial": initial,
@@ -777,5 +923,1311 @@ func c02Sweep(o *Out) {
 				}
 			}
 		}
+	}
+}
+
+// =====================================================================================================================
+// Audit wave 6: dimensions of the quantifier the generators above did not reach.  Every stratum counts what it
+// produces (evidence: coverage.harness_stats "child:audit_*" and the histograms "audit_*").  Inputs on which the
+// unchanged library differs from encoding/json and that no recorded finding covers are produced only when the
+// environment has AUDIT_OPEN=1 (they are then reported as violations, each naming its candidate tag in "what").
+// =====================================================================================================================
+
+// the inputs of the candidate findings of the audit are always produced: each is listed in KNOWN_FINDINGS.txt (C02) and
+// reported under its tag; AUDIT_OPEN=1 reports them as violations (to look at them)
+var c02Open = true
+
+// c02Hist: a histogram entry that also reaches the evidence of the parent process (mergeChild takes over counters only)
+func c02Hist(o *Out, h, k string) {
+	o.hist(h, k)
+	o.count(h+"="+k, 1)
+}
+
+// what the document generators produced (they have no *Out at hand): flushed into the counters by c02FlushGen
+var c02Gen = map[string]int64{}
+
+func c02FlushGen(o *Out) {
+	for k, n := range c02Gen {
+		o.count("generated:"+k, n)
+		delete(c02Gen, k)
+	}
+}
+
+// c02Stratum names the stratum (and, for gated inputs, the candidate finding) in the text of a violation
+var c02Stratum string
+
+var c02UnmarshalerIface = reflect.TypeOf((*stdjson.Unmarshaler)(nil)).Elem()
+var c02TextUnmarshalerIface = reflect.TypeOf((*encoding.TextUnmarshaler)(nil)).Elem()
+
+// ---- implementer shapes ----
+
+type C02USlice []int // UnmarshalJSON on a slice type
+
+func (s *C02USlice) UnmarshalJSON(b []byte) error {
+	if len(b) > 0 && b[0] == 't' {
+		return fmt.Errorf("C02USlice refuses true")
+	}
+	*s = append(*s, len(b))
+	return nil
+}
+
+type C02UMap map[string]int // UnmarshalJSON on the VALUE receiver of a map type
+
+func (m C02UMap) UnmarshalJSON(b []byte) error {
+	if m != nil {
+		m["len"] = len(b)
+	}
+	return nil
+}
+
+type C02Both struct{ S string } // both methods: UnmarshalJSON wins for a value
+
+func (u *C02Both) UnmarshalJSON(b []byte) error { u.S = "J" + string(b); return nil }
+func (u *C02Both) UnmarshalText(b []byte) error { u.S = "T" + string(b); return nil }
+
+type C02VT int // UnmarshalText on the value receiver (it cannot store anything)
+
+func (v C02VT) UnmarshalText(b []byte) error {
+	if string(b) == "bad" {
+		return fmt.Errorf("C02VT refuses bad")
+	}
+	return nil
+}
+
+type C02NB uint8 // a byte kind with UnmarshalJSON: []C02NB is base64 for a string and element-wise for an array
+
+func (b *C02NB) UnmarshalJSON(x []byte) error { *b = C02NB(len(x)); return nil }
+
+type C02TB uint8 // a byte kind with UnmarshalText
+
+func (b *C02TB) UnmarshalText(x []byte) error { *b = C02TB(len(x) + 100); return nil }
+
+type C02EmbUJ struct { // the method is promoted: the whole struct is an Unmarshaler
+	C02UJ
+	X int
+}
+
+type C02IntText int16 // an integer kind whose pointer has UnmarshalText: as a map key the method wins over the integer syntax
+
+func (k *C02IntText) UnmarshalText(b []byte) error {
+	if len(b) > 0 && b[0] == '!' {
+		return fmt.Errorf("C02IntText refuses !")
+	}
+	*k = C02IntText(len(b))
+	return nil
+}
+
+// ---- string literals: every class the string scanners tell apart, at any position and length ----
+
+func c02U4(r *rand.Rand, code int) string {
+	b := []byte(fmt.Sprintf("%04x", code))
+	for i := range b {
+		if b[i] >= 'a' && r.Intn(2) == 0 {
+			b[i] -= 32
+		}
+	}
+	return `\u` + string(b)
+}
+
+func c02RandStringLit(r *rand.Rand) string {
+	c02Gen["string_literals_with_drawn_escapes"]++
+	var b strings.Builder
+	b.WriteByte('"')
+	n := r.Intn(10)
+	if r.Intn(8) == 0 {
+		n = 20 + r.Intn(60) // long enough to cross any 8-, 16- or 64-byte step of a scanner
+	}
+	for i := 0; i < n; i++ {
+		switch r.Intn(16) {
+		case 0:
+			b.WriteString([]string{`\"`, `\\`, `\/`, `\b`, `\f`, `\n`, `\r`, `\t`}[r.Intn(8)])
+		case 1:
+			b.WriteString(c02U4(r, r.Intn(0x80))) // one byte, control characters included
+		case 2:
+			b.WriteString(c02U4(r, 0x80+r.Intn(0x780))) // two bytes
+		case 3:
+			c := 0x800 + r.Intn(0xf800)
+			if c >= 0xd800 && c < 0xe000 {
+				c = []int{0x800, 0xd7ff, 0xe000, 0xffff, 0xfffd, 0x2028, 0x2029}[r.Intn(7)]
+			}
+			b.WriteString(c02U4(r, c)) // three bytes
+		case 4:
+			// a surrogate pair, written with escapes: four bytes
+			c := []int{0x10000, 0x1f600, 0x10ffff, 0x1d49c, 0x10000 + r.Intn(0x100000)}[r.Intn(5)] - 0x10000
+			b.WriteString(c02U4(r, 0xd800+c>>10) + c02U4(r, 0xdc00+c&0x3ff))
+		case 5:
+			// surrogates that are no pair: alone, reversed, twice, followed by another escape or a plain character
+			hi, lo := 0xd800+r.Intn(0x400), 0xdc00+r.Intn(0x400)
+			switch r.Intn(6) {
+			case 0:
+				b.WriteString(c02U4(r, hi))
+			case 1:
+				b.WriteString(c02U4(r, lo))
+			case 2:
+				b.WriteString(c02U4(r, lo) + c02U4(r, hi))
+			case 3:
+				b.WriteString(c02U4(r, hi) + c02U4(r, hi) + c02U4(r, lo))
+			case 4:
+				b.WriteString(c02U4(r, hi) + c02U4(r, 0x41))
+			default:
+				b.WriteString(c02U4(r, hi) + []string{"x", `\n`, "é", `\\`}[r.Intn(4)])
+			}
+		case 6:
+			b.WriteString(string(rune(0x80 + r.Intn(0x780))))
+		case 7:
+			b.WriteString(string([]rune{0x800, 0xd7ff, 0xe000, 0xfffd, 0xffff, 0x2028, 0x2029, 0x20ac}[r.Intn(8)]))
+		case 8:
+			b.WriteString(string([]rune{0x10000, 0x1f600, 0x10ffff, 0xe0061}[r.Intn(4)]))
+		case 9:
+			b.WriteByte([]byte{'/', 0x7f, '<', '>', '&', '\'', ' ', '{', ']', ':', ','}[r.Intn(11)])
+		default:
+			for k := 1 + r.Intn(9); k > 0; k-- {
+				b.WriteByte(byte('a' + r.Intn(26)))
+			}
+		}
+	}
+	b.WriteByte('"')
+	return b.String()
+}
+
+// c02RandNumber: a number of the JSON grammar, every part of any length (long digit strings: beyond the 19 digits of the integer
+// decoders and the 17 significant digits of a float; exponents with sign and leading zeros; zero in every spelling)
+func c02RandNumber(r *rand.Rand) string {
+	c02Gen["numbers_with_drawn_parts"]++
+	var b strings.Builder
+	if r.Intn(3) == 0 {
+		b.WriteByte('-')
+	}
+	digits := func(n int) {
+		for i := 0; i < n; i++ {
+			b.WriteByte(byte('0' + r.Intn(10)))
+		}
+	}
+	if r.Intn(4) == 0 {
+		b.WriteByte('0')
+	} else {
+		b.WriteByte(byte('1' + r.Intn(9)))
+		digits([]int{0, 0, 1, 2, 5, 14, 15, 16, 17, 18, 19, 20, 25, 40}[r.Intn(14)])
+	}
+	if r.Intn(2) == 0 {
+		b.WriteByte('.')
+		digits([]int{1, 1, 2, 3, 8, 15, 16, 17, 18, 25, 40, 330}[r.Intn(12)])
+	}
+	if r.Intn(3) == 0 {
+		b.WriteByte("eE"[r.Intn(2)])
+		b.WriteString([]string{"", "+", "-"}[r.Intn(3)])
+		if r.Intn(4) == 0 {
+			b.WriteString("00")
+		}
+		b.WriteString(strconv.Itoa([]int{0, 1, 2, 5, 10, 15, 19, 20, 22, 23, 37, 38, 39, 45, 46, 307, 308, 309, 323, 324, 325, 400, 5000}[r.Intn(23)]))
+	}
+	return b.String()
+}
+
+// c02EscapeSome writes the (UTF-8 valid) text s as a JSON string literal in which some or all characters are \u escapes
+func c02EscapeSome(r *rand.Rand, s string, every bool) string {
+	c02Gen["texts_spelled_with_escapes_at_drawn_positions"]++
+	var b strings.Builder
+	b.WriteByte('"')
+	for _, c := range s {
+		switch {
+		case every || r.Intn(3) == 0:
+			if c >= 0x10000 {
+				x := int(c) - 0x10000
+				b.WriteString(c02U4(r, 0xd800+x>>10) + c02U4(r, 0xdc00+x&0x3ff))
+			} else {
+				b.WriteString(c02U4(r, int(c)))
+			}
+		case c == '/' && r.Intn(2) == 0:
+			b.WriteString(`\/`)
+		case c == '"' || c == '\\':
+			b.WriteByte('\\')
+			b.WriteRune(c)
+		case c < 0x20:
+			b.WriteString(c02U4(r, int(c)))
+		default:
+			b.WriteRune(c)
+		}
+	}
+	b.WriteByte('"')
+	return b.String()
+}
+
+// ---- the ,string option ----
+
+func c02FieldByName(t reflect.Type, name string) (reflect.StructField, bool) {
+	for i := 0; i < t.NumField(); i++ {
+		f := t.Field(i)
+		n := f.Name
+		if tag := f.Tag.Get("json"); tag != "" {
+			if p := strings.Split(tag, ",")[0]; p != "" {
+				n = p
+			}
+		}
+		if f.Anonymous && f.Tag.Get("json") == "" {
+			et := f.Type
+			if et.Kind() == reflect.Ptr {
+				et = et.Elem()
+			}
+			if et.Kind() == reflect.Struct {
+				if ff, ok := c02FieldByName(et, name); ok {
+					return ff, true
+				}
+				continue
+			}
+		}
+		if n == name {
+			return f, true
+		}
+	}
+	return reflect.StructField{}, false
+}
+
+func c02FieldHasStringOption(t reflect.Type, name string) bool {
+	f, ok := c02FieldByName(t, name)
+	if !ok {
+		return false
+	}
+	opts := strings.Split(f.Tag.Get("json"), ",")
+	for _, o := range opts[1:] {
+		if o == "string" {
+			return true
+		}
+	}
+	return false
+}
+
+// c02QuoteValue puts a value text inside a JSON string (the form the ,string option reads)
+func c02QuoteValue(r *rand.Rand, val string) string {
+	c02Gen["values_inside_quotes_for_the_string_option"]++
+	if !utf8.ValidString(val) {
+		return strconvQuote(val)
+	}
+	if r.Intn(4) == 0 {
+		return c02EscapeSome(r, val, r.Intn(4) == 0)
+	}
+	return strconvQuote(val)
+}
+
+var c02QuotedBases = []reflect.Type{
+	reflect.TypeOf(false), reflect.TypeOf(int(0)), reflect.TypeOf(int8(0)), reflect.TypeOf(int16(0)), reflect.TypeOf(int32(0)), reflect.TypeOf(int64(0)),
+	reflect.TypeOf(uint(0)), reflect.TypeOf(uint8(0)), reflect.TypeOf(uint16(0)), reflect.TypeOf(uint32(0)), reflect.TypeOf(uint64(0)), reflect.TypeOf(uintptr(0)),
+	reflect.TypeOf(float32(0)), reflect.TypeOf(float64(0)), reflect.TypeOf(""), reflect.TypeOf(TgNamedStr("")), reflect.TypeOf(TgNamedInt(0)), reflect.TypeOf(stdjson.Number("")),
+}
+
+// the text inside the quotes for a field of type base; open = the text belongs to a candidate finding (see c02QuotedStratum)
+func c02QuotedInner(r *rand.Rand, base reflect.Type) (inner string, open string) {
+	var x string
+	isNumber := base == reflect.TypeOf(stdjson.Number(""))
+	switch base.Kind() {
+	case reflect.Bool:
+		x = []string{"true", "false"}[r.Intn(2)]
+	case reflect.Float32, reflect.Float64:
+		x = c02Floats[r.Intn(len(c02Floats))]
+	case reflect.String:
+		if isNumber {
+			x = append(append([]string{}, c02Ints...), c02Floats...)[r.Intn(len(c02Ints)+len(c02Floats))]
+		} else if r.Intn(2) == 0 {
+			x = c02RandStringLit(r)
+		} else {
+			x = c02Strings[r.Intn(len(c02Strings))]
+		}
+	default:
+		x = c02Ints[r.Intn(len(c02Ints))]
+		if r.Intn(3) == 0 {
+			x = strconv.FormatInt(r.Int63()>>uint(r.Intn(64))*int64(1-2*r.Intn(2)), 10)
+		}
+	}
+	numeric := base.Kind() != reflect.Bool && (base.Kind() != reflect.String || isNumber)
+	switch k := r.Intn(40); {
+	case k == 0:
+		return "", ""
+	case k == 1:
+		return " " + x, ""
+	case k == 2:
+		if isNumber {
+			return x + " ", "QuotedNumberGrammar" // encoding/json stores any text that begins like a number into a json.Number
+		}
+		return x + " ", ""
+	case k == 3:
+		return "null", ""
+	case k == 4:
+		if isNumber {
+			return x + "x", "QuotedNumberGrammar"
+		}
+		return x + "x", ""
+	case k == 5:
+		return `"` + x + `"`, ""
+	case k == 6:
+		if isNumber {
+			return x + "," + x, "QuotedNumberGrammar"
+		}
+		return x + "," + x, ""
+	case k == 7:
+		return "[" + x + "]", ""
+	case k == 8:
+		return []string{"nul", "tru", "fals", "nulll", "truee", "n", "t", "f", "T", "True", "NULL"}[r.Intn(11)], ""
+	case k == 9:
+		return strings.ToUpper(x), ""
+	case k == 10:
+		return "+" + x, ""
+	case k < 15 && numeric:
+		// texts strconv reads and the JSON grammar does not: encoding/json hands the content of the quotes to strconv
+		digits := strings.TrimLeft(x, "-")
+		neg := x[:len(x)-len(digits)]
+		cand := []string{neg + "0" + digits, neg + "00" + digits, "-Inf", "-infinity", "-INF", "0x1p4", "-0X1P-2", "1_0", "0b11", "0o17", "0x_1p0", neg + digits + ".", "1.e2"}
+		return cand[r.Intn(len(cand))], "QuotedNumberGrammar"
+	}
+	return x, ""
+}
+
+// c02QuotedStratum: struct{ F T `json:"f,string"`; Z int } for every basic T (also behind a pointer, behind two, named, json.Number,
+// and types on which the option is ignored), documents {"f": "<text>"} with texts at and beyond every range boundary, with
+// white space, a remainder, null, nested quotes, the outer string spelled with escapes; raw values too.
+func c02QuotedStratum(o *Out) {
+	r := o.rng
+	c02Stratum = "audit stratum: ,string option"
+	defer func() { c02Stratum = "" }()
+	entries := c02Entries()
+	var types []reflect.Type
+	for _, b := range c02QuotedBases {
+		types = append(types, b, reflect.PtrTo(b))
+	}
+	types = append(types, reflect.PtrTo(reflect.PtrTo(reflect.TypeOf(int(0)))), reflect.PtrTo(reflect.PtrTo(reflect.TypeOf(""))), tgIface,
+		reflect.TypeOf([]int(nil)), reflect.TypeOf(map[string]int(nil)), reflect.TypeOf([]byte(nil)), reflect.TypeOf([2]bool{}), reflect.TypeOf(C02Sw{}), reflect.PtrTo(reflect.TypeOf(C02Sw{})))
+	per := 30
+	if o.tier == "thorough" {
+		per = 600
+	}
+	for _, ft := range types {
+		t := reflect.StructOf([]reflect.StructField{{Name: "F", Type: ft, Tag: `json:"f,string"`}, {Name: "Z", Type: reflect.TypeOf(0)}})
+		base := ft
+		for base.Kind() == reflect.Ptr {
+			base = base.Elem()
+		}
+		for i := 0; i < per; i++ {
+			var val, open string
+			switch base.Kind() {
+			case reflect.Interface, reflect.Slice, reflect.Map, reflect.Array, reflect.Struct:
+				// the option is ignored on these: any value for the type, sometimes in quotes
+				val = c02Doc(r, base, 1, false)
+				if r.Intn(3) == 0 {
+					val = c02QuoteValue(r, val)
+				}
+			default:
+				var inner string
+				inner, open = c02QuotedInner(r, base)
+				switch r.Intn(12) {
+				case 0:
+					val = inner // not in quotes
+					if !stdjson.Valid([]byte(val)) {
+						val = "1"
+					}
+					open = ""
+				case 1:
+					val = "null"
+					open = ""
+				default:
+					val = c02QuoteValue(r, inner)
+				}
+			}
+			if open != "" && !c02Open {
+				o.count("audit_quoted_texts_of_open_candidates_not_run", 1)
+				continue
+			}
+			doc := []byte("{" + c02WS(r) + `"f"` + c02WS(r) + ":" + c02WS(r) + val + c02WS(r) + `,"Z":1}`)
+			if !utf8.Valid(doc) || !stdjson.Valid(doc) {
+				o.count("generated_documents_not_valid_skipped", 1)
+				continue
+			}
+			seed := r.Int63()
+			populated := i%2 == 1
+			mk := func() reflect.Value {
+				v := reflect.New(t)
+				if populated {
+					tgValue(rand.New(rand.NewSource(seed)), v.Elem(), 0, 30, false)
+				}
+				return v
+			}
+			if open != "" {
+				c02Stratum = "audit stratum: ,string option; candidate finding " + open
+			}
+			c02One(o, t, doc, mk, entries[r.Intn(len(entries))], populated)
+			c02Stratum = "audit stratum: ,string option"
+			o.count("audit_quoted_option_decodes", 1)
+			o.hist("audit_quoted_option_field_type", ft.String())
+		}
+		o.count("audit_quoted_option_field_types", 1)
+	}
+}
+
+// ---- interfaces with methods ----
+
+type C02Str struct{ A int } // a pointer type with a method that is no unmarshal method
+
+func (s *C02Str) String() string { return "str" }
+
+type C02StrV int // the same on a value receiver: held in an interface by value
+
+func (s C02StrV) String() string { return "strv" }
+
+type C02Stringer interface{ String() string }
+
+type C02If struct {
+	U stdjson.Unmarshaler
+	T encoding.TextUnmarshaler
+	S fmt.Stringer
+	N C02Stringer
+	L []fmt.Stringer
+	M map[string]stdjson.Unmarshaler
+	P *fmt.Stringer
+	E interface{}
+}
+
+// what the fields hold before the call: state 0 = all nil
+func c02IfValue(state int) *C02If {
+	v := &C02If{}
+	switch state {
+	case 1: // each interface holds a pointer to a type with the matching unmarshal method
+		v.U, v.T = &C02UJ{Raw: "old", N: 3}, &C02UT{Text: "old", N: 4}
+		v.M = map[string]stdjson.Unmarshaler{"k": &C02UJ{Raw: "m"}, "nil": nil}
+		v.E = &C02UJ{Raw: "e"}
+	case 2: // non-pointers, and pointers whose type has no unmarshal method
+		v.S, v.N = C02StrV(5), C02StrV(6)
+		v.L = []fmt.Stringer{C02StrV(1), nil}
+		var s fmt.Stringer = C02StrV(9)
+		v.P = &s
+	case 3: // pointers to types without an unmarshal method: encoding/json decodes into what they point to
+		v.S, v.N = &C02Str{A: 1}, &C02Str{A: 2}
+		v.L = []fmt.Stringer{&C02Str{A: 3}, nil, C02StrV(4)}
+		var s fmt.Stringer = &C02Str{A: 9}
+		v.P = &s
+	case 4: // typed nil pointers inside the interfaces
+		v.U, v.T, v.S = (*C02UJ)(nil), (*C02UT)(nil), (*C02Str)(nil)
+	}
+	return v
+}
+
+func c02IfaceStratum(o *Out) {
+	c02Stratum = "audit stratum: interfaces with methods"
+	defer func() { c02Stratum = "" }()
+	entries := c02Entries()
+	vals := []string{"null", "1", `"x"`, "true", `{"A":5}`, `[1]`, `{}`, `"bad"`, `[null,{"A":7},null]`, `{"k":1,"nil":null,"new":2}`, `{"k":null}`}
+	t := reflect.TypeOf(C02If{})
+	for state := 0; state <= 4; state++ {
+		for _, field := range []string{"U", "T", "S", "N", "L", "M", "P", "E"} {
+			for _, val := range vals {
+				open := ""
+				isNull := val == "null"
+				switch {
+				case state == 1 && isNull && field == "U":
+					// null into an interface that holds an Unmarshaler: encoding/json clears the interface, go-json calls UnmarshalJSON("null")
+					open = "NullIntoInterfaceHoldingUnmarshaler"
+				case state == 3 && (field == "S" || field == "N" || field == "L" || field == "P") && !isNull:
+					// an interface with methods that holds a non-nil pointer: encoding/json decodes into what it points to
+					open = "InterfaceWithMethodsHoldingPointer"
+				case state == 4 && field == "U" && isNull:
+					open = "NullIntoInterfaceHoldingUnmarshaler" // ... here on a typed nil pointer
+				case state == 4 && (field == "U" || field == "T") && !isNull:
+					// a typed nil pointer in the interface: the method would be called on nil
+					continue
+				}
+				if open != "" && !c02Open {
+					o.count("audit_interface_cases_of_open_candidates_not_run", 1)
+					continue
+				}
+				doc := []byte(`{"` + field + `":` + val + `}`)
+				st := state
+				mk := func() reflect.Value { return reflect.ValueOf(c02IfValue(st)) }
+				for _, e := range []c02Entry{entries[0], entries[3], entries[4]} {
+					if open != "" {
+						c02Stratum = "audit stratum: interfaces with methods; candidate finding " + open
+					}
+					c02One(o, t, doc, mk, e, state != 0)
+					c02Stratum = "audit stratum: interfaces with methods"
+					o.count("audit_interface_with_methods_decodes", 1)
+				}
+				c02Hist(o, "audit_interface_with_methods_state", fmt.Sprintf("state%d", state))
+			}
+		}
+	}
+}
+
+// ---- map key types ----
+
+func c02MapKeyStratum(o *Out) {
+	r := o.rng
+	c02Stratum = "audit stratum: map key types"
+	defer func() { c02Stratum = "" }()
+	entries := c02Entries()
+	supported := []reflect.Type{reflect.TypeOf(""), reflect.TypeOf(TgNamedStr("")), reflect.TypeOf(stdjson.Number("")), reflect.TypeOf(C02Key("")), reflect.TypeOf(C02UT{}),
+		reflect.TypeOf(C02VT(0)), reflect.TypeOf(C02IntText(0)), reflect.TypeOf(TgNamedInt(0)), reflect.TypeOf(TgIntKey(0)), reflect.TypeOf(uintptr(0)), reflect.TypeOf(int8(0)), reflect.TypeOf(uint64(0))}
+	// key types encoding/json refuses (cannot unmarshal object into Go value of type map[K]V), and one whose pointer has both methods
+	unsupported := []reflect.Type{reflect.TypeOf(false), reflect.TypeOf(float64(0)), reflect.TypeOf(float32(0)), tgIface, reflect.PtrTo(reflect.TypeOf("")), reflect.PtrTo(reflect.TypeOf(0)),
+		reflect.TypeOf([1]int{}), reflect.TypeOf([2]string{}), reflect.TypeOf(struct{ A int }{}), reflect.TypeOf(C02Str{}), reflect.TypeOf(C02Both{})}
+	elems := []reflect.Type{reflect.TypeOf(0), reflect.TypeOf(""), tgIface, reflect.TypeOf([]int(nil)), reflect.PtrTo(reflect.TypeOf(C02Sw{})), reflect.TypeOf([20]int64{})}
+	per := 40
+	if o.tier == "thorough" {
+		per = 800
+	}
+	keyText := func(kt reflect.Type) string {
+		switch r.Intn(6) {
+		case 0:
+			return c02RandStringLit(r)
+		case 1:
+			return `"` + c02Ints[r.Intn(30)] + `"`
+		case 2:
+			return []string{`"true"`, `"false"`, `"1.5"`, `"null"`, `""`, `"!x"`, `"bad"`, `"k"`, `"1"`, `"1e2"`, `" 1"`}[r.Intn(11)]
+		}
+		return c02KeyFor(r, kt)
+	}
+	for _, kt := range supported {
+		for i := 0; i < per; i++ {
+			t := reflect.MapOf(kt, elems[r.Intn(len(elems))])
+			n := r.Intn(4)
+			var parts []string
+			first := ""
+			for k := 0; k < n; k++ {
+				key := keyText(kt)
+				if k > 0 && r.Intn(4) == 0 {
+					key = first // the same key again
+				}
+				if k == 0 {
+					first = key
+				}
+				parts = append(parts, key+c02WS(r)+":"+c02WS(r)+c02Doc(r, t.Elem(), 2, false))
+			}
+			doc := []byte("{" + c02WS(r) + strings.Join(parts, ",") + "}")
+			if r.Intn(12) == 0 {
+				doc = []byte("null")
+			}
+			if !utf8.Valid(doc) || !stdjson.Valid(doc) {
+				o.count("generated_documents_not_valid_skipped", 1)
+				continue
+			}
+			seed := r.Int63()
+			populated := i%2 == 1
+			mk := func() reflect.Value {
+				v := reflect.New(t)
+				if populated {
+					tgValue(rand.New(rand.NewSource(seed)), v.Elem(), 0, 30, false)
+				}
+				return v
+			}
+			c02One(o, t, doc, mk, entries[r.Intn(len(entries))], populated)
+			o.count("audit_map_key_type_decodes", 1)
+			c02Hist(o, "audit_map_key_type", kt.String())
+		}
+	}
+	if !c02Open {
+		o.count("audit_map_key_types_of_open_candidates_not_run", int64(len(unsupported)))
+		return
+	}
+	// candidate finding UnsupportedMapKeyAccepted / MapKeyBothUnmarshalers: only the verdicts are compared and nothing go-json
+	// stored is read (a destination written through the wrong decoder need not be a well-formed value)
+	for _, kt := range unsupported {
+		tag := "UnsupportedMapKeyAccepted"
+		if kt == reflect.TypeOf(C02Both{}) {
+			tag = "MapKeyBothUnmarshalers"
+		}
+		t := reflect.MapOf(kt, reflect.TypeOf(0))
+		for _, ds := range []string{`{}`, `null`, `{"true":1}`, `{"1":1}`, `{"1.5":1,"x":2}`, `{"":1}`} {
+			for _, e := range []c02Entry{entries[0], entries[3]} {
+				o.current(map[string]string{"property": "C02", "type": t.String(), "doc": ds, "entry": e.name, "stratum": "map key types (open candidates)"})
+				sv := reflect.New(t)
+				serr := e.std([]byte(ds), sv.Interface())
+				gv := reflect.New(t)
+				gerr := c04SafeErr(func() error { return e.goj([]byte(ds), gv.Interface()) })
+				o.count("audit_map_key_type_open_candidate_decodes", 1)
+				same := (serr == nil) == (gerr == nil)
+				if same && serr == nil && tag == "MapKeyBothUnmarshalers" {
+					same = reflect.DeepEqual(sv.Elem().Interface(), gv.Elem().Interface())
+				}
+				if same {
+					continue
+				}
+				what := "error in one library only"
+				if (serr == nil) == (gerr == nil) {
+					what = "destinations differ"
+				}
+				o.violation("C02", what+" [audit stratum: map key types; candidate finding "+tag+"]", map[string]string{
+					"entry": e.name, "type": t.String(), "doc": ds, "initial": "zero", "encoding_json_err": fmt.Sprint(serr), "go_json_err": fmt.Sprint(gerr)})
+			}
+		}
+	}
+}
+
+// ---- the struct key matchers at their boundaries ----
+
+// names for a struct of n fields: shared prefixes, a name that differs from another in one position only, mixed letter
+// case (no two names equal under case folding: that is C15's finding FoldTieOrder), '/', characters of two, three and
+// four bytes; long > 0 puts a name of exactly that many bytes first (the matcher by bitmap is used up to 64)
+func c02SweepNames(n, long int) []string {
+	pool := []string{"a", "ab", "abc", "abd", "aBe", "b", "Bc", "bcd", "x/y", "/", "é1", "日本", "\U0001d49cz", "Zz", "zy", "z"}
+	for i := 0; len(pool) < n+1; i++ {
+		pool = append(pool, fmt.Sprintf("n%dq", i))
+	}
+	names := append([]string{}, pool[:n]...)
+	if long > 0 {
+		names[0] = "L" + strings.Repeat("o", long-3) + "nG"
+	}
+	return names
+}
+
+func c02AltCase(s string) string {
+	b := []byte(s)
+	k := 0
+	for i, c := range b {
+		if 'a' <= c && c <= 'z' || 'A' <= c && c <= 'Z' {
+			if k%2 == 0 {
+				b[i] = c ^ 0x20
+			}
+			k++
+		}
+	}
+	return string(b)
+}
+
+func c02KeySweep(o *Out) {
+	r := o.rng
+	c02Stratum = "audit stratum: struct key matcher boundaries"
+	defer func() { c02Stratum = "" }()
+	entries := c02Entries()
+	use := []c02Entry{entries[0], entries[3], entries[4]}
+	for _, n := range []int{1, 2, 7, 8, 9, 15, 16, 17, 18, 40} {
+		for _, long := range []int{0, 63, 64, 65} {
+			names := c02SweepNames(n, long)
+			var fs []reflect.StructField
+			for i, name := range names {
+				fs = append(fs, reflect.StructField{Name: fmt.Sprintf("F%d", i), Type: reflect.TypeOf(0), Tag: reflect.StructTag(`json:"` + name + `"`)})
+			}
+			t := reflect.StructOf(fs)
+			o.current(map[string]string{"property": "C02", "type": clipN(t.String(), 600), "stratum": "struct key matcher boundaries"})
+			var docs []string
+			var all, allEsc []string
+			for i, name := range names {
+				val := strconv.Itoa(i + 1)
+				rs := []rune(name)
+				sp := []string{strconvQuote(name), strconvQuote(c02ASCIICase(name, true)), strconvQuote(c02ASCIICase(name, false)), strconvQuote(c02AltCase(name)),
+					c02EscapeSome(r, name, true), c02EscapeSome(r, name, false), c02EscapeSome(r, c02AltCase(name), false),
+					strconvQuote(string(rs[:len(rs)-1])), strconvQuote(name + "x"), strconvQuote(name + name), strconvQuote(" " + name), strconvQuote(name + "\x00"),
+					// the first / last character alone as an escape
+					`"` + c02EscapeSome(r, string(rs[:1]), true)[1:len(c02EscapeSome(r, string(rs[:1]), true))-1] + strconvQuote(string(rs[1:]))[1:],
+					strconvQuote(string(rs[:len(rs)-1]))[:len(strconvQuote(string(rs[:len(rs)-1])))-1] + c02EscapeSome(r, string(rs[len(rs)-1:]), true)[1:],
+				}
+				// the last byte replaced by the byte another name has at that position
+				other := names[(i+1)%len(names)]
+				if len(other) >= len(name) && other != name && name[len(name)-1] < 0x80 && other[len(name)-1] < 0x80 {
+					sp = append(sp, strconvQuote(name[:len(name)-1]+other[len(name)-1:len(name)]))
+				}
+				for _, k := range sp {
+					docs = append(docs, `{`+k+`:`+val+`}`)
+				}
+				all = append(all, strconvQuote(name)+":"+val)
+				allEsc = append(allEsc, c02EscapeSome(r, c02AltCase(name), false)+" : "+val)
+			}
+			docs = append(docs, "{"+strings.Join(all, ",")+"}", "{"+strings.Join(allEsc, " , ")+`,"unknown":[{"a":"}"}]}`)
+			for i, j := 0, len(all)-1; i < j; i, j = i+1, j-1 {
+				all[i], all[j] = all[j], all[i]
+			}
+			docs = append(docs, `{"":0,`+strings.Join(all, ",")+","+strings.Join(allEsc, ",")+"}")
+			mk := func() reflect.Value { return reflect.New(t) }
+			for _, ds := range docs {
+				doc := []byte(ds)
+				if !utf8.Valid(doc) || !stdjson.Valid(doc) {
+					o.count("generated_documents_not_valid_skipped", 1)
+					continue
+				}
+				for _, e := range use {
+					sv, gv := mk(), mk()
+					serr := e.std(doc, sv.Interface())
+					gerr := c04SafeErr(func() error { return e.goj(doc, gv.Interface()) })
+					o.count("audit_key_matcher_sweep_decodes", 1)
+					if (serr == nil) == (gerr == nil) && (serr != nil || reflect.DeepEqual(sv.Elem().Interface(), gv.Elem().Interface())) {
+						continue
+					}
+					c02One(o, t, doc, mk, e, false) // reports it (and classifies it) with everything needed to replay
+				}
+			}
+			o.hist("audit_key_matcher_sweep_fields", fmt.Sprintf("%d fields, long name %d bytes", n, long))
+			o.count("audit_key_matcher_sweep_struct_types", 1)
+		}
+	}
+}
+
+// ---- a document written along the initial value ----
+
+func c02FieldValueByName(v reflect.Value, name string) reflect.Value {
+	t := v.Type()
+	for i := 0; i < t.NumField(); i++ {
+		f := t.Field(i)
+		n := f.Name
+		if tag := f.Tag.Get("json"); tag != "" {
+			if p := strings.Split(tag, ",")[0]; p != "" {
+				n = p
+			}
+		}
+		if f.Anonymous && f.Tag.Get("json") == "" {
+			ev := v.Field(i)
+			if ev.Kind() == reflect.Ptr {
+				if ev.IsNil() {
+					if ev.Type().Elem().Kind() == reflect.Struct && c02FieldTypeByName(ev.Type().Elem(), name) != nil {
+						return reflect.Value{}
+					}
+					continue
+				}
+				ev = ev.Elem()
+			}
+			if ev.Kind() == reflect.Struct {
+				if c02FieldTypeByName(ev.Type(), name) != nil {
+					return c02FieldValueByName(ev, name)
+				}
+				continue
+			}
+		}
+		if n == name {
+			return v.Field(i)
+		}
+	}
+	return reflect.Value{}
+}
+
+func c02EmbedCycle(t reflect.Type, path map[reflect.Type]bool) bool {
+	if t.Kind() == reflect.Ptr {
+		t = t.Elem()
+	}
+	if t.Kind() != reflect.Struct {
+		return false
+	}
+	if path[t] {
+		return true
+	}
+	path[t] = true
+	defer delete(path, t)
+	for i := 0; i < t.NumField(); i++ {
+		if f := t.Field(i); f.Anonymous && f.Tag.Get("json") == "" && c02EmbedCycle(f.Type, path) {
+			return true
+		}
+	}
+	return false
+}
+
+func c02DocAlong(r *rand.Rand, t reflect.Type, v reflect.Value, depth int, o *Out) string {
+	if depth > 6 || !v.IsValid() {
+		return c02Doc(r, t, depth, false)
+	}
+	switch r.Intn(14) {
+	case 0:
+		return "null"
+	case 1:
+		return c02Doc(r, t, depth, false)
+	}
+	if pt := reflect.PtrTo(t); pt.Implements(c02UnmarshalerIface) || pt.Implements(c02TextUnmarshalerIface) || t == reflect.TypeOf(stdjson.Number("")) || t == reflect.TypeOf(stdjson.RawMessage(nil)) {
+		return c02Doc(r, t, depth, false)
+	}
+	switch t.Kind() {
+	case reflect.Ptr:
+		if v.IsNil() {
+			return c02Doc(r, t, depth, false)
+		}
+		o.count("along:set_pointer_entered", 1)
+		return c02DocAlong(r, t.Elem(), v.Elem(), depth+1, o)
+	case reflect.Interface:
+		if v.IsNil() || t.NumMethod() > 0 {
+			return genValue(r, 2)
+		}
+		e := v.Elem()
+		switch {
+		case e.Kind() == reflect.Ptr && !e.IsNil():
+			if !c02Open && c02HasEmbeddedPtrCycle(e.Type()) {
+				// candidate finding EmbeddedPointerToTypeInProgress (see c02EmbedCycleStratum): not addressed member by member by default
+				o.count("along:embedded_pointer_cycle_not_entered", 1)
+				return genValue(r, 2)
+			}
+			o.count("along:pointer_in_interface_entered", 1)
+			return c02DocAlong(r, e.Type().Elem(), e.Elem(), depth+1, o)
+		case e.Kind() == reflect.Map && e.Type().Key().Kind() == reflect.String:
+			var parts []string
+			for _, k := range e.MapKeys() {
+				if utf8.ValidString(k.String()) {
+					parts = append(parts, strconvQuote(k.String())+":"+genValue(r, 1))
+				}
+			}
+			o.count("along:map_in_interface_same_keys", 1)
+			return "{" + strings.Join(parts, ",") + "}"
+		case e.Kind() == reflect.Slice:
+			var parts []string
+			for i := 0; i < e.Len()+r.Intn(2); i++ {
+				parts = append(parts, genValue(r, 1))
+			}
+			return "[" + strings.Join(parts, ",") + "]"
+		}
+		return genValue(r, 2)
+	case reflect.Slice, reflect.Array:
+		if t.Kind() == reflect.Slice && (v.IsNil() || t.Elem().Kind() == reflect.Uint8) {
+			return c02Doc(r, t, depth, false)
+		}
+		n := v.Len() + r.Intn(3) - 1
+		if n < 0 || r.Intn(8) == 0 {
+			n = 0
+		}
+		c02Hist(o, "along:array_length_against_initial", []string{"shorter", "equal", "longer"}[map[bool]int{true: 0, false: 1}[n < v.Len()]+map[bool]int{true: 1, false: 0}[n > v.Len()]])
+		var parts []string
+		for i := 0; i < n; i++ {
+			if i < v.Len() {
+				parts = append(parts, c02WS(r)+c02DocAlong(r, t.Elem(), v.Index(i), depth+1, o))
+			} else {
+				parts = append(parts, c02Doc(r, t.Elem(), depth+1, false)+c02WS(r))
+			}
+		}
+		return "[" + strings.Join(parts, ",") + "]"
+	case reflect.Map:
+		if v.IsNil() {
+			return c02Doc(r, t, depth, false)
+		}
+		keys := v.MapKeys()
+		sort.Slice(keys, func(i, j int) bool { return fmt.Sprint(keys[i].Interface()) < fmt.Sprint(keys[j].Interface()) })
+		var parts []string
+		for _, k := range keys {
+			if r.Intn(3) == 0 {
+				continue
+			}
+			var ks string
+			switch k.Kind() {
+			case reflect.String:
+				if !utf8.ValidString(k.String()) || reflect.PtrTo(k.Type()).Implements(c02TextUnmarshalerIface) {
+					continue
+				}
+				ks = strconvQuote(k.String())
+				if r.Intn(4) == 0 {
+					ks = c02EscapeSome(r, k.String(), false)
+				}
+			case reflect.Int, reflect.Int8, reflect.Int16, reflect.Int32, reflect.Int64:
+				ks = `"` + strconv.FormatInt(k.Int(), 10) + `"`
+			case reflect.Uint, reflect.Uint8, reflect.Uint16, reflect.Uint32, reflect.Uint64, reflect.Uintptr:
+				ks = `"` + strconv.FormatUint(k.Uint(), 10) + `"`
+			default:
+				continue
+			}
+			o.count("along:key_the_map_already_holds", 1)
+			parts = append(parts, ks+c02WS(r)+":"+c02DocAlong(r, t.Elem(), v.MapIndex(k), depth+1, o))
+		}
+		for k := r.Intn(3); k > 0; k-- {
+			parts = append(parts, c02KeyFor(r, t.Key())+":"+c02Doc(r, t.Elem(), depth+1, false))
+		}
+		r.Shuffle(len(parts), func(i, j int) { parts[i], parts[j] = parts[j], parts[i] })
+		return "{" + strings.Join(parts, c02WS(r)+",") + c02WS(r) + "}"
+	case reflect.Struct:
+		if c02EmbedCycle(t, map[reflect.Type]bool{}) {
+			return genValue(r, 2) // a type that embeds itself (reached as the dynamic type of an interface): its names cannot be listed by recursion
+		}
+		var parts []string
+		for _, name := range c02FieldNames(t) {
+			if r.Intn(4) == 0 {
+				continue
+			}
+			ft := c02FieldTypeByName(t, name)
+			val := genValue(r, 1)
+			if ft != nil {
+				fv := c02FieldValueByName(v, name)
+				if fv.IsValid() && fv.Type() == ft {
+					val = c02DocAlong(r, ft, fv, depth+1, o)
+				} else {
+					val = c02Doc(r, ft, depth+1, false)
+				}
+				if c02FieldHasStringOption(t, name) && r.Intn(4) != 0 {
+					val = c02QuoteValue(r, val)
+				}
+			}
+			parts = append(parts, c02KeySpelling(r, name)+":"+c02WS(r)+val)
+		}
+		if r.Intn(4) == 0 {
+			parts = append(parts, `"unknown":`+genValue(r, 2))
+		}
+		r.Shuffle(len(parts), func(i, j int) { parts[i], parts[j] = parts[j], parts[i] })
+		return "{" + strings.Join(parts, ","+c02WS(r)) + "}"
+	}
+	return c02Doc(r, t, depth, false)
+}
+
+// ---- what is passed as the destination; white space around the value; nesting at the limit ----
+
+func c02TopLevelStratum(o *Out) {
+	c02Stratum = "audit stratum: destination forms, outer white space, nesting limit"
+	defer func() { c02Stratum = "" }()
+	entries := c02Entries()
+	type form struct {
+		name string
+		mk   func() interface{}
+	}
+	forms := []form{
+		{"untyped nil", func() interface{} { return nil }},
+		{"an int, not a pointer", func() interface{} { return 5 }},
+		{"a struct, not a pointer", func() interface{} { return C02Sw{A: 1} }},
+		{"a map, not a pointer", func() interface{} { return map[string]int{"a": 1} }},
+		{"a slice, not a pointer", func() interface{} { return []int{1} }},
+		{"nil *int", func() interface{} { return (*int)(nil) }},
+		{"nil *struct", func() interface{} { return (*C02Sw)(nil) }},
+		{"nil *C02UJ", func() interface{} { return (*C02UJ)(nil) }},
+		{"**int, inner nil", func() interface{} { return new(*int) }},
+		{"**int, inner set", func() interface{} { x := 7; p := &x; return &p }},
+		{"***string, all set", func() interface{} { x := "s"; p := &x; pp := &p; return &pp }},
+		{"**struct, inner set", func() interface{} { p := &C02Sw{A: 1, D: map[string]int{"x": 1}}; return &p }},
+		{"*interface{} holding *int", func() interface{} { x := 7; var i interface{} = &x; return &i }},
+		{"*interface{} holding *struct", func() interface{} { var i interface{} = &C02Sw{A: 1}; return &i }},
+		{"*interface{} holding nil *int", func() interface{} { var i interface{} = (*int)(nil); return &i }},
+		{"*interface{} holding a map", func() interface{} { var i interface{} = map[string]interface{}{"A": 1.0}; return &i }},
+		{"*interface{} holding *map", func() interface{} { m := map[string]int{"old": 1}; var i interface{} = &m; return &i }},
+		{"*interface{} holding *[]int", func() interface{} { s := []int{1, 2, 3}; var i interface{} = &s; return &i }},
+		{"*interface{} holding *C02UJ", func() interface{} { var i interface{} = &C02UJ{Raw: "old"}; return &i }},
+		{"*interface{} holding a struct", func() interface{} { var i interface{} = C02Sw{A: 1}; return &i }},
+		{"*C02UJ", func() interface{} { return &C02UJ{} }},
+		{"**C02UT, inner nil", func() interface{} { return new(*C02UT) }},
+		{"*[2]int", func() interface{} { return &[2]int{8, 9} }},
+		{"*int", func() interface{} { return new(int) }},
+		{"*string", func() interface{} { return new(string) }},
+		{"*bool", func() interface{} { return new(bool) }},
+		{"*float64", func() interface{} { return new(float64) }},
+		{"*[]byte", func() interface{} { return new([]byte) }},
+		{"*json.Number", func() interface{} { return new(stdjson.Number) }},
+		{"*json.RawMessage", func() interface{} { return new(stdjson.RawMessage) }},
+		{"*map[string]int", func() interface{} { return new(map[string]int) }},
+		{"*struct", func() interface{} { return new(C02Sw) }},
+	}
+	cores := []string{"null", "1", "-0", "1.5e1", `"s"`, `"AQID"`, "true", "false", "[]", "[1,2,3]", "{}", `{"A":2,"D":{"y":2}}`, `{"old":null,"new":3}`}
+	wss := []string{"", " ", "\n", "\t", "\r", "\r\n", " \t\n\r ", strings.Repeat(" ", 64), strings.Repeat("\n", 513)}
+	use := []c02Entry{entries[0], entries[1], entries[2], entries[3], entries[6]}
+	for _, f := range forms {
+		for _, core := range cores {
+			for wi, ws := range wss {
+				doc := []byte(ws + core + wss[(wi*5+3)%len(wss)])
+				for _, e := range use {
+					o.count("audit_destination_form_decodes", 1)
+					sv, gv := f.mk(), f.mk()
+					serr := e.std(doc, sv)
+					gerr := c04SafeErr(func() error { return e.goj(doc, gv) })
+					if (serr == nil) == (gerr == nil) && (serr != nil || reflect.DeepEqual(sv, gv)) {
+						continue
+					}
+					o.violation("C02", "destination form: differs from encoding/json ["+c02Stratum+"]", map[string]string{
+						"entry": e.name, "destination": f.name, "doc": clipN(strconv.Quote(string(doc)), 300), "encoding_json_err": fmt.Sprint(serr), "go_json_err": fmt.Sprint(gerr),
+						"encoding_json": clipN(fmt.Sprintf("%#v", sv), 300), "go_json": clipN(fmt.Sprintf("%#v", gv), 300)})
+				}
+			}
+		}
+		o.hist("audit_destination_form", f.name)
+		o.count("audit_destination_forms", 1)
+	}
+	// nesting around the limit of 10000, through every decoder that counts depth and through the code that steps over values
+	type deep struct {
+		name string
+		mk   func() interface{}
+		doc  func(d int) string
+	}
+	arr := func(d int) string { return strings.Repeat("[", d) + strings.Repeat("]", d) }
+	obj := func(d int) string { return strings.Repeat(`{"next":`, d) + "null" + strings.Repeat("}", d) }
+	deeps := []deep{
+		{"interface{} <- arrays", func() interface{} { return new(interface{}) }, arr},
+		{"interface{} <- objects", func() interface{} { return new(interface{}) }, obj},
+		{"[]interface{} <- arrays", func() interface{} { return new([]interface{}) }, arr},
+		{"map[string]interface{} <- objects", func() interface{} { return new(map[string]interface{}) }, obj},
+		{"TgRec <- next", func() interface{} { return new(TgRec) }, obj},
+		{"TgRec <- kids", func() interface{} { return new(TgRec) }, func(d int) string {
+			return strings.Repeat(`{"kids":[`, d/2) + strings.Repeat(`]}`, d/2)
+		}},
+		{"TgRec <- m", func() interface{} { return new(TgRec) }, func(d int) string {
+			return strings.Repeat(`{"m":{"k":`, d/2) + "{}" + strings.Repeat(`}}`, d/2)
+		}},
+		{"RawMessage", func() interface{} { return new(stdjson.RawMessage) }, arr},
+		{"C02UJ", func() interface{} { return new(C02UJ) }, obj},
+		{"unknown member stepped over", func() interface{} { return new(C02Sw) }, func(d int) string { return `{"unknown":` + arr(d-1) + `,"A":1}` }},
+		{"surplus array element stepped over", func() interface{} { return new([1]int) }, func(d int) string { return `[1,` + obj(d-1) + `]` }},
+		{"[][][]int prefix", func() interface{} { return new([][][]interface{}) }, arr},
+	}
+	for _, dp := range deeps {
+		for _, d := range []int{9998, 9999, 10000, 10001, 10002, 10004} {
+			doc := []byte(dp.doc(d))
+			for _, e := range []c02Entry{entries[0], entries[3]} {
+				o.current(map[string]string{"property": "C02", "destination": dp.name, "nesting": strconv.Itoa(d), "entry": e.name})
+				o.count("audit_nesting_limit_decodes", 1)
+				sv, gv := dp.mk(), dp.mk()
+				serr := e.std(doc, sv)
+				gerr := c04SafeErr(func() error { return e.goj(doc, gv) })
+				if (serr == nil) == (gerr == nil) && (serr != nil || reflect.DeepEqual(sv, gv)) {
+					if serr != nil {
+						c02Hist(o, "audit_nesting_limit", "both refuse")
+					} else {
+						c02Hist(o, "audit_nesting_limit", "both accept")
+					}
+					continue
+				}
+				o.violation("C02", "nesting limit: differs from encoding/json ["+c02Stratum+"]", map[string]string{
+					"entry": e.name, "destination": dp.name, "nesting": strconv.Itoa(d), "encoding_json_err": fmt.Sprint(serr), "go_json_err": fmt.Sprint(gerr)})
+			}
+		}
+	}
+}
+
+// ---- a struct that embeds a pointer to a struct type that contains it again ----
+
+type C02CycA struct {
+	X    int
+	Kids []C02CycB
+}
+type C02CycB struct {
+	*C02CycA
+	Rel string
+}
+
+// reaches: t contains (through fields, elements, pointers) the struct type target
+func c02Reaches(t, target reflect.Type, seen map[reflect.Type]bool) bool {
+	if seen[t] {
+		return false
+	}
+	seen[t] = true
+	switch t.Kind() {
+	case reflect.Ptr, reflect.Slice, reflect.Array, reflect.Map:
+		return c02Reaches(t.Elem(), target, seen)
+	case reflect.Struct:
+		if t == target {
+			return true
+		}
+		for i := 0; i < t.NumField(); i++ {
+			if c02Reaches(t.Field(i).Type, target, seen) {
+				return true
+			}
+		}
+	}
+	return false
+}
+
+// c02HasEmbeddedPtrCycle: somewhere in t a struct S embeds (without a tag) a pointer to a struct E other than S, and E contains S again
+func c02HasEmbeddedPtrCycle(t reflect.Type) bool {
+	found := false
+	seen := map[reflect.Type]bool{}
+	var walk func(t reflect.Type)
+	walk = func(t reflect.Type) {
+		if seen[t] || found {
+			return
+		}
+		seen[t] = true
+		switch t.Kind() {
+		case reflect.Ptr, reflect.Slice, reflect.Array, reflect.Map:
+			walk(t.Elem())
+		case reflect.Struct:
+			for i := 0; i < t.NumField(); i++ {
+				f := t.Field(i)
+				if f.Anonymous && f.Tag.Get("json") == "" && f.Type.Kind() == reflect.Ptr && f.Type.Elem().Kind() == reflect.Struct && f.Type.Elem() != t &&
+					c02Reaches(f.Type.Elem(), t, map[reflect.Type]bool{}) {
+					found = true
+					return
+				}
+				walk(f.Type)
+			}
+		}
+	}
+	walk(t)
+	return found
+}
+
+// c02EmbedCycleStratum: candidate finding EmbeddedPointerToTypeInProgress.  type A struct{ X int; Kids []B }; type B struct{ *A; Rel string }:
+// decoding into A compiles B while A is still being compiled, B takes over none of A's members, and {"Kids":[{"X":1}]}
+// loses X (and a wrong value for X is no error); decoding into B directly is right.  Runs only with AUDIT_OPEN=1.
+func c02EmbedCycleStratum(o *Out) {
+	types := []reflect.Type{reflect.TypeOf(C02CycA{}), reflect.TypeOf(C02CycB{}), reflect.TypeOf(TgItem{}), reflect.TypeOf(TgItemLink{}), reflect.TypeOf(TgMutEmbA{}), reflect.TypeOf(TgMutEmbB{}),
+		reflect.TypeOf([]C02CycA(nil)), reflect.TypeOf(map[string]*TgItem(nil))}
+	if !c02Open {
+		o.count("audit_embedded_pointer_cycle_types_of_open_candidate_not_run", int64(len(types)))
+		return
+	}
+	r := o.rng
+	c02Stratum = "audit stratum: embedded pointer to a type in progress; candidate finding EmbeddedPointerToTypeInProgress"
+	defer func() { c02Stratum = "" }()
+	entries := c02Entries()
+	fixed := map[reflect.Type][]string{
+		reflect.TypeOf(C02CycA{}):   {`{"Kids":[{"X":1,"Rel":"r"}]}`, `{"Kids":[{"Kids":[{"X":"not a number"}]}]}`},
+		reflect.TypeOf(C02CycB{}):   {`{"X":1,"Kids":[{"X":2}],"Rel":"r"}`, `{"Kids":[{"Kids":[{"X":3}]}]}`},
+		reflect.TypeOf(TgItem{}):    {`{"Next":{"ID":5,"Name":"n","Rel":"r"}}`, `{"Links":[{"ID":5}]}`, `{"Next":{"Links":[{"Rel":1.5}]}}`},
+		reflect.TypeOf(TgMutEmbA{}): {`{"B":{"X":1,"Y":2}}`},
+	}
+	per := 40
+	if o.tier == "thorough" {
+		per = 800
+	}
+	for _, t := range types {
+		docs := append([]string{}, fixed[t]...)
+		for i := 0; i < per; i++ {
+			docs = append(docs, c02Doc(r, t, 0, false))
+		}
+		for i, ds := range docs {
+			doc := []byte(ds)
+			if !utf8.Valid(doc) || !stdjson.Valid(doc) {
+				continue
+			}
+			seed := r.Int63()
+			populated := i%2 == 1 && i >= len(fixed[t])
+			mk := func() reflect.Value {
+				v := reflect.New(t)
+				if populated {
+					tgValue(rand.New(rand.NewSource(seed)), v.Elem(), 0, 30, false)
+				}
+				return v
+			}
+			c02One(o, t, doc, mk, entries[r.Intn(len(entries))], populated)
+			o.count("audit_embedded_pointer_cycle_decodes", 1)
+		}
+	}
+}
+
+// ---- kinds that cannot be decoded ----
+
+type C02Unsup struct {
+	A  int
+	F  func()
+	C  chan int
+	X  complex128
+	UP unsafe.Pointer
+	PF *func()
+	SF []func()
+	MC map[string]chan int
+	AX [1]complex64
+}
+
+// c02UnsupportedKindStratum: fields of kinds no JSON value can be stored in (func, chan, complex, unsafe.Pointer; behind a
+// pointer, in a slice, a map, an array).  encoding/json refuses every value but null for them and ignores them when the document
+// does not name them.  Candidate finding NullIntoUndecodableKind (null into chan / complex / unsafe.Pointer is an error in
+// go-json, accepted by encoding/json; null into a func is an error in Decoder.Decode only): those documents only with AUDIT_OPEN=1.
+func c02UnsupportedKindStratum(o *Out) {
+	c02Stratum = "audit stratum: kinds that cannot be decoded"
+	defer func() { c02Stratum = "" }()
+	entries := c02Entries()
+	t := reflect.TypeOf(C02Unsup{})
+	mk := func() reflect.Value { return reflect.New(t) }
+	docs := []string{`{"A":1}`, `{}`, `null`}
+	var open []bool
+	for range docs {
+		open = append(open, false)
+	}
+	for _, f := range []string{"F", "C", "X", "UP", "PF", "SF", "MC", "AX"} {
+		for _, v := range []string{"null", "1", `"s"`, "{}", "[]", "[null]", `{"k":null}`, "true", "1.5", "[1]"} {
+			docs = append(docs, `{"A":1,"`+f+`":`+v+`}`)
+			// (for a func the buffer mode agrees with encoding/json and the Decoder does not: its funcDecoder reads the null twice)
+			open = append(open, (f == "C" || f == "X" || f == "UP" || f == "F") && v == "null" || f == "MC" && v == `{"k":null}` || (f == "AX" || f == "SF") && v == "[null]")
+		}
+	}
+	for i, ds := range docs {
+		if open[i] && !c02Open {
+			o.count("audit_undecodable_kind_cases_of_open_candidate_not_run", 1)
+			continue
+		}
+		for _, e := range []c02Entry{entries[0], entries[3], entries[4]} {
+			if open[i] {
+				c02Stratum = "audit stratum: kinds that cannot be decoded; candidate finding NullIntoUndecodableKind"
+			}
+			c02One(o, t, []byte(ds), mk, e, false)
+			c02Stratum = "audit stratum: kinds that cannot be decoded"
+			o.count("audit_undecodable_kind_decodes", 1)
+		}
+	}
+}
+
+// ---- an unmarshal method promoted into an unnamed struct type ----
+
+type C02Prom struct {
+	In struct {
+		C02UJ
+		V int
+	}
+	When struct {
+		time.Time
+		Zone string
+	}
+	L []struct {
+		C02UT
+		V int
+	}
+	M map[string]struct {
+		C02UJ
+		V int
+	}
+	A [1]struct {
+		C02UJ
+		V int
+	}
+	P *struct { // behind a pointer the method is found by both libraries
+		C02UJ
+		V int
+	}
+	Z int
+}
+
+// c02PromotedStratum: candidate finding UnnamedStructPromotedUnmarshaler.  A struct field, slice element, map value or array
+// element whose type is an UNNAMED struct type that has UnmarshalJSON / UnmarshalText by embedding: encoding/json looks for the
+// method on pointers only and takes the address of named types only, so it decodes such a value member by member; go-json
+// calls the promoted method.  Behind a pointer and at top level the two agree (run by default).  The rest only with AUDIT_OPEN=1.
+func c02PromotedStratum(o *Out) {
+	c02Stratum = "audit stratum: promoted unmarshal method on an unnamed struct type"
+	defer func() { c02Stratum = "" }()
+	entries := c02Entries()
+	t := reflect.TypeOf(C02Prom{})
+	vals := []string{`{"V":1}`, `{"V":1,"Raw":"r","N":2}`, `{"V":2,"Text":"t"}`, `{"Zone":"x"}`, `"2006-01-02T15:04:05Z"`, `"text"`, `null`, `{}`, `1`, `[1]`}
+	for _, field := range []string{"In", "When", "L", "M", "A", "P", "Z"} {
+		for _, val := range vals {
+			open := ""
+			if field != "P" && field != "Z" {
+				open = "UnnamedStructPromotedUnmarshaler"
+			}
+			if open != "" && !c02Open {
+				o.count("audit_promoted_method_cases_of_open_candidate_not_run", 1)
+				continue
+			}
+			switch field {
+			case "L", "A":
+				val = "[" + val + "]"
+			case "M":
+				val = `{"k":` + val + `}`
+			}
+			doc := []byte(`{"` + field + `":` + val + `,"Z":3}`)
+			for pi, populated := range []bool{false, true} {
+				mk := func() reflect.Value {
+					v := reflect.New(t)
+					if populated {
+						tgValue(rand.New(rand.NewSource(77)), v.Elem(), 0, 0, false)
+					}
+					return v
+				}
+				if open != "" {
+					c02Stratum = "audit stratum: promoted unmarshal method on an unnamed struct type; candidate finding " + open
+				}
+				c02One(o, t, doc, mk, entries[[]int{0, 3}[pi]], populated)
+				c02Stratum = "audit stratum: promoted unmarshal method on an unnamed struct type"
+				o.count("audit_promoted_method_decodes", 1)
+			}
+		}
+	}
+	// at top level: a pointer to the unnamed type is what the caller passes
+	for _, ds := range []string{`{"V":1}`, `null`, `"s"`} {
+		mk := func() reflect.Value {
+			return reflect.ValueOf(new(struct {
+				C02UJ
+				V int
+			}))
+		}
+		c02One(o, mk().Type().Elem(), []byte(ds), mk, entries[0], false)
+		o.count("audit_promoted_method_decodes", 1)
+	}
+}
+
+func c02AuditStrata(o *Out) {
+	for _, st := range []struct {
+		name string
+		run  func(*Out)
+	}{{"quoted_option", c02QuotedStratum}, {"interfaces_with_methods", c02IfaceStratum}, {"map_key_types", c02MapKeyStratum},
+		{"key_matcher_sweep", c02KeySweep}, {"destination_forms", c02TopLevelStratum}, {"embedded_pointer_cycle", c02EmbedCycleStratum},
+		{"promoted_method", c02PromotedStratum}, {"undecodable_kinds", c02UnsupportedKindStratum}} {
+		start := time.Now()
+		st.run(o)
+		o.count("audit_milliseconds_"+st.name, time.Since(start).Milliseconds())
+		o.checkpoint()
 	}
 }
